@@ -8,6 +8,7 @@ use crate::reg::Reg;
 #[cfg(feature = "c09")] pub mod c09;
 #[cfg(feature = "c08")] pub mod c08;
 #[cfg(feature = "c10")] pub mod c10;
+#[cfg(feature = "c05")] pub mod c05;
 
 pub fn register(prop: &str, reg: &mut Reg) {
     match prop {
@@ -18,6 +19,7 @@ pub fn register(prop: &str, reg: &mut Reg) {
         #[cfg(feature = "c09")] "C09" => c09::register(reg),
         #[cfg(feature = "c08")] "C08" => c08::register(reg),
         #[cfg(feature = "c10")] "C10" => c10::register(reg),
+        #[cfg(feature = "c05")] "C05" => c05::register(reg),
         _ => { eprintln!("symx: property {} not available in this build", prop); std::process::exit(2); }
     }
 }
